@@ -34,6 +34,7 @@ GStruct(fs) == [g |-> "struct", fs |-> fs]               \* sequence of [n, x (e
 GBad(u) == [g |-> "unsupported", u |-> u]
 GNamed(u) == [g |-> "named", u |-> u]                  \* a value of a named basic type (type ID uint32, type Status int, type Label string, ...)
 GSameName == [g |-> "samename"]                         \* []any{row{Title}, row{Name, Count}}: two struct types that are both called "row"
+GEmb(u) == [g |-> "embedded", u |-> u]                \* type Page struct { Base; Name string } - u: how Base is embedded (value, ptr, ptrnil, unexported)
 GNilSlice == [g |-> "nilslice"]                          \* var s []string: a slice (of length 0), not a nil value
 GNilMap == [g |-> "nilmap"]                              \* var m map[string]int
 Fld(n, x, v) == [n |-> n, x |-> x, v |-> v]
@@ -70,6 +71,11 @@ Conv(v) ==
                          ELSE O([i \in 1..Len(vs) |-> [pk |-> ex[i].n, pv |-> vs[i]]])
     [] v.g = "named" -> Unspec          \* a number / string like its underlying type, or an error: never a crash (C09)
     [] v.g = "samename" -> A(<<O(<<[pk |-> "Title", pv |-> S("T1")]>>), O(<<[pk |-> "Name", pv |-> S("N2")], [pk |-> "Count", pv |-> [t |-> "int", sym |-> "2"]]>>)>>)
+    \* an embedded struct is a field named after its type; whether the fields it promotes are reachable from the outer value as
+    \* well is not fixed by C12 (no path is generated for them). A nil embedded pointer: as for every nil pointer, never a crash.
+    [] v.g = "embedded" -> IF v.u = "ptrnil" THEN Unspec
+                           ELSE IF v.u = "unexported" THEN O(<<[pk |-> "Name", pv |-> S("n")]>>)
+                           ELSE O(<<[pk |-> "Base", pv |-> O(<<[pk |-> "Title", pv |-> S("t")]>>)], [pk |-> "Name", pv |-> S("n")]>>)
     [] v.g = "nilslice" -> A(<<>>)
     [] v.g = "nilmap" -> O(<<>>)
     [] v.g = "unsupported" -> Err("unsupported")
@@ -85,7 +91,7 @@ PrintableD(v) == CASE v.t \in {"err", "unspec", "nilptr"} -> FALSE
 
 \* ---- access paths: every way to reach every node of the converted value ----
 LowerFirst(n) == CASE n = "Title" -> "title" [] n = "Count" -> "count" [] n = "Name" -> "name" [] n = "Age" -> "age" [] n = "Inner" -> "inner" [] n = "Tags" -> "tags"
-                   [] n = "Val" -> "val" [] n = "K" -> "k" [] n = "P" -> "p" [] n = "Q" -> "q" [] OTHER -> n
+                   [] n = "Base" -> "base" [] n = "Val" -> "val" [] n = "K" -> "k" [] n = "P" -> "p" [] n = "Q" -> "q" [] OTHER -> n
 RECURSIVE Paths(_, _)
 Paths(v, depth) ==     \* set of [p |-> path source suffix, v |-> value reached]
   {[p |-> "", v |-> v]} \cup
@@ -141,7 +147,8 @@ HiddenBad == {GStruct(<<Fld("Name", TRUE, GStr("n")), Fld("ch", FALSE, GBad("cha
 \* Go's nil slices and nil maps are empty collections (C12: same shape; C02: empty arrays and objects are truthy)
 NamedVals == UNION {{GNamed(u), GPtr(GNamed(u)), GSlice(<<GNamed(u)>>), GMap(<<KV("k", GNamed(u))>>), GStruct(<<Fld("Val", TRUE, GNamed(u))>>)} :
                        u \in {"uint32", "int", "string", "float64", "bool", "uint8", "uintptr-named"}}
-NilColls == NamedVals \cup {GSameName, GPtr(GSameName), GNilSlice, GNilMap, GPtr(GNilSlice), GSlice(<<GNilSlice, GNilMap>>), GMap(<<KV("k", GNilSlice), KV("m", GNilMap)>>),
+Embedded == UNION {{GEmb(u), GPtr(GEmb(u)), GSlice(<<GEmb(u)>>), GMap(<<KV("k", GEmb(u))>>)} : u \in {"value", "ptr", "ptrnil", "unexported"}}
+NilColls == NamedVals \cup Embedded \cup {GSameName, GPtr(GSameName), GNilSlice, GNilMap, GPtr(GNilSlice), GSlice(<<GNilSlice, GNilMap>>), GMap(<<KV("k", GNilSlice), KV("m", GNilMap)>>),
              GStruct(<<Fld("Tags", TRUE, GNilSlice), Fld("Inner", TRUE, GNilMap), Fld("Name", TRUE, GStr("n"))>>)}
 Values == CASE Family = "scalars" -> Scalars
             [] Family = "g1" -> G1 \cup NilPtrs \cup CaseKeys \cup NilColls \cup OddColls
@@ -155,6 +162,7 @@ ExpectAt(q) == IF IsErr(q.v) THEN [kind |-> "err", why |-> q.v.why]
 Misses(v) == IF v.g = "struct" THEN {[p |-> "." \o f.n, v |-> Err("unexported field is not reachable")] : f \in {v.fs[i] : i \in {j \in 1..Len(v.fs) : ~v.fs[j].x}}}
                                     \cup {[p |-> ".nope", v |-> Err("no such field")]}
              ELSE IF v.g = "map" THEN {[p |-> ".nope", v |-> Err("no such key")], [p |-> "[\"nope\"]", v |-> Err("no such key")]}
+             ELSE IF v.g = "embedded" /\ v.u = "unexported" THEN {[p |-> ".base", v |-> Err("unexported field is not reachable")]}
              ELSE {}
 \* what a node is, beyond how it prints: its truth value (C02) and, for arrays, its length
 TruthD(v) == IF v.t = "int" /\ "sym" \in DOMAIN v THEN v.sym # "0" ELSE Truthy(v)
